@@ -40,6 +40,7 @@ struct Plan {
     long trunc = -1;              // serve only the first k bytes of the module (torn write)
     std::vector<std::vector<std::string>> args;   // option groups, e.g. {"-t","3"}
     int shape = 0; bool input_in_outdir = false;
+    bool out_symlink = false;  // the output file exists already, as a symbolic link to a file in another directory
     uint32_t libc_every = 0;   // every n-th sprintf/strcpy/... return is a scheduling point
     std::vector<FileSpec> decoys;
     std::vector<IoFault> faults;
@@ -301,7 +302,7 @@ static std::string plan_to_text(const Plan& p, const std::vector<uint32_t>* trac
     std::ostringstream o;
     o << "engine E2\nproperty " << p.prop << "\nseed " << p.seed << "\n";
     o << "config policy=" << p.policy << " switch_prob=" << p.switch_prob << " pct_depth=" << p.pct_depth << " mem_mean=" << p.mem_mean
-      << " spurious=" << p.spurious << " ncpu=" << p.ncpu << " tcfail=" << p.tcfail << " trunc=" << p.trunc << " libc_every=" << p.libc_every << " shape=" << p.shape << " input_in_outdir=" << (p.input_in_outdir ? 1 : 0)
+      << " spurious=" << p.spurious << " ncpu=" << p.ncpu << " tcfail=" << p.tcfail << " trunc=" << p.trunc << " libc_every=" << p.libc_every << " shape=" << p.shape << " input_in_outdir=" << (p.input_in_outdir ? 1 : 0) << " out_symlink=" << (p.out_symlink ? 1 : 0)
       << " nfuncs=" << p.nfuncs << " gseed=" << p.gseed << "\n";
     o << "module " << p.module << "\n";
     if (!p.ref.empty()) o << "ref " << p.ref << "\n";
@@ -324,7 +325,7 @@ static bool plan_from_text(const std::string& text, Plan& p) {
             if (k == "policy") p.policy = atoi(v.c_str()); else if (k == "switch_prob") p.switch_prob = atof(v.c_str()); else if (k == "pct_depth") p.pct_depth = atoi(v.c_str());
             else if (k == "mem_mean") p.mem_mean = (uint32_t)strtoul(v.c_str(), 0, 10); else if (k == "spurious") p.spurious = atof(v.c_str()); else if (k == "ncpu") p.ncpu = atoi(v.c_str());
             else if (k == "tcfail") p.tcfail = atof(v.c_str()); else if (k == "trunc") p.trunc = atol(v.c_str()); else if (k == "shape") p.shape = atoi(v.c_str()); else if (k == "libc_every") p.libc_every = (uint32_t)atoi(v.c_str());
-            else if (k == "input_in_outdir") p.input_in_outdir = atoi(v.c_str()) != 0; else if (k == "nfuncs") p.nfuncs = atoi(v.c_str()); else if (k == "gseed") p.gseed = strtoull(v.c_str(), 0, 10); } }
+            else if (k == "input_in_outdir") p.input_in_outdir = atoi(v.c_str()) != 0; else if (k == "out_symlink") p.out_symlink = atoi(v.c_str()) != 0; else if (k == "nfuncs") p.nfuncs = atoi(v.c_str()); else if (k == "gseed") p.gseed = strtoull(v.c_str(), 0, 10); } }
         else if (w == "module") ls >> p.module; else if (w == "ref") ls >> p.ref; else if (w == "changed") ls >> p.changed;
         else if (w == "arg") { std::vector<std::string> a; std::string s; while (ls >> s) a.push_back(s); if (!a.empty()) p.args.push_back(a); }
         else if (w == "file") { FileSpec f; ls >> f.kind; std::getline(ls, f.rel); while (!f.rel.empty() && f.rel[0] == ' ') f.rel.erase(0, 1); p.decoys.push_back(f); }
@@ -425,6 +426,7 @@ static Plan make_plan(const std::string& prop, uint64_t root, uint64_t idx, bool
     p.shape = (int)g.below(prop == "C20" ? 16 : 11);
     if (prop != "C20" && p.shape == 5) p.shape = 7;   // an output named like an implementation file collides with it: only meaningful for C20
     p.input_in_outdir = g.below(5) == 0;
+    if (prop == "C20" && p.shape != 5) p.out_symlink = g.below(8) == 0;
     // decoys
     int nd = prop == "C20" ? 4 + (int)g.below(10) : (int)g.below(4);
     for (int i = 0; i < nd; i++) {
@@ -492,7 +494,7 @@ struct RunOut {
     std::string stderr_tail; long stderr_size = 0; std::string fatal;
     std::map<std::string, Node> before, after;
     uint64_t fopen_w = 0, removes = 0, io_faults = 0;
-    std::string root, outdir, outbase, hdrbase;
+    std::string root, outdir, outbase, hdrbase, link_target;
     uint64_t out_hash = 0; std::vector<std::string> out_names; std::map<std::string, uint64_t> out_files;
     std::map<std::string, std::string> kinds;   // abs -> kind
     long dyn = -1, tot = -1;
@@ -541,6 +543,18 @@ static void run_translator(const Plan& p, bool canonical, RunOut& o) {
         { std::string pd, pb; split_path(base, &pd, &pb); mkdirs(pd); }
         FILE* f = __real_fopen(base.c_str(), "w"); if (f) { fprintf(f, "decoy %s %s\n", d.kind.c_str(), d.rel.c_str()); __real_fclose(f); }
         o.kinds[base] = d.kind;
+    }
+    if (p.out_symlink) {
+        // the output file is a symbolic link into another directory (a shared or versioned store): writing through the link is what the
+        // output path names; everything else still belongs into the directory the path names
+        std::string ld = root + "/other/linked"; mkdirs(ld);
+        o.link_target = ld + "/target.c";
+        const char* extra[] = {"s0000000007.c", "d0000000003.c", "main.c"};
+        for (const char* n : extra) { FILE* f = __real_fopen((ld + "/" + n).c_str(), "w"); if (f) { fputs("file next to the link target\n", f); __real_fclose(f); } o.kinds[ld + "/" + n] = std::string("in-link-target-dir:") + (is_impl_name(n) ? "impl-name" : "user-file"); }
+        { FILE* f = __real_fopen((ld + "/" + o.hdrbase).c_str(), "w"); if (f) { fputs("header-named file next to the link target\n", f); __real_fclose(f); } o.kinds[ld + "/" + o.hdrbase] = "in-link-target-dir:header-name"; }
+        { FILE* f = __real_fopen(o.link_target.c_str(), "w"); if (f) { fputs("previous output\n", f); __real_fclose(f); } o.kinds[o.link_target] = "link-target"; }
+        __real_unlink(outabs.c_str());
+        if (__real_symlink(o.link_target.c_str(), outabs.c_str()) != 0) o.link_target.clear();
     }
     snapshot(root, "", o.before);
 
@@ -693,6 +707,7 @@ static void c20_oracle(const Plan& p, const RunOut& o, Verdict& v) {
         if (!created && !modified) continue;
         std::string abs = o.root + "/" + kv.first, d, b; split_path(abs, &d, &b);
         bool ok = kv.second.type == 'f' && d == o.outdir && (b == o.outbase || b == o.hdrbase || is_impl_name(b) || (ext && b == "datasegments"));
+        if (!ok && modified && !o.link_target.empty() && abs == o.link_target) ok = true;     // written through the output file's link
         if (!ok) v.set(std::string("C20/fs/") + (created ? "created:" : "modified:") + cls(kv.first), (created ? "created " : "modified ") + kv.first);
     }
     for (auto& kv : o.before) {
